@@ -718,7 +718,8 @@ def run_gen_check(prop, tier, seed):
             known_seen[v['Rule'] + '/' + v['Key']] = known_seen.get(v['Rule'] + '/' + v['Key'], 0) + 1
             print('KNOWN-FINDING: property=%s rule=%s key=%s %s' % (prop, v['Rule'], v['Key'], k['text']))
             continue
-XX, Input=v['Input'], Seed=v['Seed'], TreeHash=th), open(path, 'w'), indent=1)
+        path = os.path.join(VERIF, 'replays', '%s-%s-%d-%s.json' % (prop, v['Rule'], v['Seed'], hashlib.sha256(v['Input'].encode()).hexdigest()[:8]))
+        json.dump(dict(Property=prop, Rule=v['Rule'], Key=v['Key'], Detail=v['Detail'], Mode='gen16', Input=v['Input'], Seed=v['Seed'], TreeHash=th), open(path, 'w'), indent=1)
         print('VIOLATION property=%s replay=%s' % (prop, path))
         print('  rule=%s key=%s input=%s seed=%s: %s' % (v['Rule'], v['Key'], v['Input'][:80], v['Seed'], v['Detail'][:600]))
         reported.append(v)
